@@ -21,8 +21,13 @@ func Index(json any) any {
 	classIndex := make(map[string][]string)
 	nodeIndex := make(types.ObjectMap)
 
-	g := json.(types.ObjectMap)["@graph"]
-	nodes := g.([]any)
+	var nodes []any
+	switch flattened := json.(type) {
+	case types.ObjectMap:
+		nodes, _ = flattened["@graph"].([]any)
+	case []any: // a document without nodes is flattened to an empty array
+		nodes = flattened
+	}
 
 	for _, nn := range nodes {
 		n := nn.(types.ObjectMap)
